@@ -22,6 +22,13 @@ type Scenario struct {
 	Stub []string
 	// Faults lists the fault kinds this scenario can inject (Stats keys).
 	Faults []string
+	// Racy marks a scenario that deliberately generates states in which the
+	// code under test itself resolves a choice at random (a select with several
+	// ready cases, an unsynchronised flag). Its oracle must hold whichever way
+	// those choices go. Its runs are excluded from the determinism comparison,
+	// and a violation it finds may replay only intermittently (the driver says
+	// so in the replay file).
+	Racy bool
 }
 
 var registry = map[string][]*Scenario{}
